@@ -697,4 +697,16 @@ def run (cat : Catalog) (ops : List Op) : State × List Out := runFrom (State.in
 
 end Spec
 
+/-! ## 4. Checker for observed histories -/
+
+/-- an observed history: the operations in the order in which they took effect (for engine `hist` the order of the
+    case line; for a multi-threaded run the order of the begin / statement / commit tickets) and what each answered -/
+structure Observed where
+  ops : List Op
+  outs : List Out
+
+/-- Is the observation what the abstract snapshot-isolation machine answers to these operations?
+    (soundness: `Thm/C04.checkSI_sound`) -/
+def checkSI (cat : Catalog) (obs : Observed) : Bool := decide ((Spec.run cat obs.ops).2 = obs.outs)
+
 end AxVerif.Db
